@@ -107,6 +107,7 @@ class Adapter:
 
     def __init__(self, langs=None, **kw):
         self.langs = langs or {}
+        self.seen = set()
 
     def on_timeout(self, case):
         return {'steps': 1, 'div': [{'kind': 'timeout', 'action': 'LoadLegacy', 'component': 'timeout', 'features': [],
@@ -121,6 +122,10 @@ class Adapter:
         res = {'steps': 0, 'div': [], 'features': []}
         if case['hist'] and case['hist'][-1]['act']['res'] == 'collide':
             return res
+        key = lang + json.dumps(ab, sort_keys=True)
+        if key in self.seen:
+            return res          # the same abstraction was already emitted and loaded by this worker
+        self.seen.add(key)
         defaults = {}
         for a in ab['assets']:
             d = a['def'] if isinstance(a['def'], dict) else {}
